@@ -37,3 +37,111 @@ pub fn inputs(seed: u64) -> impl Iterator<Item = Value> {
     for a in &ts { for b in &ts { if r.below(4) != 0 || a == b || a.len() + b.len() < 8 { out.push(json!({"implemented": a, "field": b})); } } }
     out.into_iter()
 }
+
+// ------------------------------------------------------------------------------------------------------------------
+// c33_build: dynamic schemas written in a tiny SDL-like DSL, built with the real builder; hand-labelled valid / invalid
+use async_graphql::dynamic::*;
+
+fn tref(s: &str) -> TypeRef { parse(s.trim()) }
+/// "kind Name [implements A & B] { f(arg: T): T, ... }" | "union U = A | B" | "enum E { X, Y }" | "scalar S"
+fn build(defs: &[&str], query: &str) -> Result<Schema, SchemaError> {
+    let mut b = Schema::build(query, None, None);
+    for d in defs {
+        let d = d.trim();
+        let (head, body) = match d.find('{') { Some(i) => (&d[..i], d[i + 1..].trim_end_matches('}').trim()), None => (d, "") };
+        let mut hw = head.split_whitespace();
+        let kind = hw.next().unwrap(); let name = hw.next().unwrap();
+        let rest: Vec<&str> = hw.collect();
+        let fields: Vec<(String, Vec<(String, String)>, String)> = (if kind == "enum" || kind == "union" || kind == "scalar" { "" } else { body }).split(';').map(|f| f.trim()).filter(|f| !f.is_empty()).map(|f| {
+            // name(arg: T, ..): T
+            let (lhs, ty) = f.rsplit_once(':').unwrap();
+            let (lhs, ty) = if lhs.contains('(') && !lhs.contains(')') { let i = f.rfind("):").unwrap(); (&f[..i + 1], &f[i + 2..]) } else { (lhs, ty) };
+            let (fname, args) = match lhs.find('(') { Some(i) => (&lhs[..i], lhs[i + 1..].trim_end_matches(')').split(',').filter(|a| !a.trim().is_empty()).map(|a| { let (n, t) = a.split_once(':').unwrap(); (n.trim().to_string(), t.trim().to_string()) }).collect()), None => (lhs, vec![]) };
+            (fname.trim().to_string(), args, ty.trim().to_string()) }).collect();
+        match kind {
+            "type" => { let mut o = Object::new(name);
+                for r in rest.iter().filter(|x| **x != "implements" && **x != "&") { o = o.implement(*r); }
+                for (f, args, ty) in &fields { let mut fd = Field::new(f.clone(), tref(ty), |_| FieldFuture::new(async { Ok(None::<async_graphql::Value>) }));
+                    for (an, at) in args { fd = fd.argument(InputValue::new(an.clone(), tref(at))); } o = o.field(fd); }
+                b = b.register(o); }
+            "interface" => { let mut o = Interface::new(name);
+                for r in rest.iter().filter(|x| **x != "implements" && **x != "&") { o = o.implement(*r); }
+                for (f, args, ty) in &fields { let mut fd = InterfaceField::new(f.clone(), tref(ty));
+                    for (an, at) in args { fd = fd.argument(InputValue::new(an.clone(), tref(at))); } o = o.field(fd); }
+                b = b.register(o); }
+            "input" => { let mut o = InputObject::new(name); for (f, _, ty) in &fields { o = o.field(InputValue::new(f.clone(), tref(ty))); } b = b.register(o); }
+            "union" => { let mut u = Union::new(name); for m in d.split_once('=').unwrap().1.split('|') { u = u.possible_type(m.trim()); } b = b.register(u); }
+            "enum" => { let mut e = Enum::new(name); for i in body.split(',').map(|x| x.trim()).filter(|x| !x.is_empty()) { e = e.item(i); } b = b.register(e); }
+            "scalar" => { b = b.register(Scalar::new(name)); }
+            _ => panic!("bad def {}", d),
+        }
+    }
+    b.finish()
+}
+
+/// args {"defs": ["type Query { a: Int }", ...], "query": "Query", "valid": bool}
+pub fn build_case(args: &Value) -> Outcome {
+    let defs: Vec<&str> = args["defs"].as_array().unwrap().iter().map(|x| x.as_str().unwrap()).collect();
+    let r = build(&defs, args["query"].as_str().unwrap_or("Query"));
+    let exp = args["valid"].as_bool().unwrap();
+    let mut holds = r.is_ok() == exp;
+    let mut obs = match &r { Ok(_) => "builds".to_string(), Err(e) => format!("rejected: {}", e) };
+    if let (Ok(s), true) = (&r, exp) {
+        // every schema that builds can be exported and introspected without panicking
+        let sdl = s.sdl();
+        let resp = futures_util::FutureExt::now_or_never(s.execute("{ __schema { types { name kind fields { name type { name kind ofType { name } } } possibleTypes { name } inputFields { name } } } }")).unwrap();
+        if !resp.errors.is_empty() || sdl.is_empty() { holds = false; obs = format!("builds but introspection/export failed: {:?}", resp.errors); }
+    }
+    Outcome { holds, observed: obs, expected: if exp { "builds (valid type system)".into() } else { "rejected (invalid type system)".into() } }
+}
+
+pub fn build_inputs(_seed: u64, open: &[String]) -> impl Iterator<Item = Value> {
+    let has = |id: &str| open.iter().any(|x| x == id);
+    let q = "type Query { a(x: A): Int }";
+    let ok = |defs: Vec<&str>| json!({"defs": defs, "valid": true});
+    let bad = |defs: Vec<&str>| json!({"defs": defs, "valid": false});
+    let mut v = vec![
+        ok(vec!["type Query { a: Int }"]),
+        bad(vec!["type Q2 { a: Int }"]),                                              // root type missing
+        bad(vec!["input Query { a: Int }"]),                                          // root type not an object
+        bad(vec!["type Query { a: Missing }"]),                                       // unknown field type
+        bad(vec!["type Query { a: In }", "input In { x: Int }"]),                     // field type must be an output type
+        bad(vec!["type Query { a(x: Out): Int }", "type Out { x: Int }"]),            // argument type must be an input type
+        ok(vec!["type Query { a(x: In, e: E): E }", "input In { x: [Int!]!; e: E }", "enum E { X, Y }"]),
+        // input object cycles of required fields
+        ok(vec![q, "input A { b: B }", "input B { a: A! }"]),
+        ok(vec![q, "input A { b: [B!]! }", "input B { a: A! }"]),
+        bad(vec![q, "input A { a: A! }"]),
+        bad(vec![q, "input A { b: B! }", "input B { a: A! }"]),
+        bad(vec![q, "input A { leaf: Leaf!; b: B! }", "input B { a: A! }", "input Leaf { n: Int }"]),
+        bad(vec![q, "input C { leaf: Leaf!; b: B! }", "input B { leaf: Leaf!; a: A! }", "input Leaf { n: Int }", "input A { x: String; leaf: Leaf!; c: C! }"]),
+        ok(vec![q, "input A { leaf: Leaf!; b: B! }", "input B { a: A }", "input Leaf { n: Int }"]),
+        bad(vec![q, "input A { l1: Leaf!; l2: Leaf!; b: B! }", "input B { l: Leaf!; c: C! }", "input C { l: Leaf!; a: A! }", "input Leaf { n: Int }"]),
+        // unions
+        ok(vec!["type Query { u: U }", "union U = P | R", "type P { x: Int }", "type R { y: Int }"]),
+        bad(vec!["type Query { u: U }", "union U = P | Node", "type P implements Node { id: ID! }", "interface Node { id: ID! }"]),
+        bad(vec!["type Query { u: U }", "union U = P | S", "type P { x: Int }", "scalar S"]),
+        bad(vec!["type Query { u: U }", "union U = P | E", "type P { x: Int }", "enum E { X }"]),
+        bad(vec!["type Query { u: U }", "union U = P | V", "union V = P", "type P { x: Int }"]),
+        bad(vec!["type Query { u: U }", "union U = P | In", "type P { x: Int }", "input In { x: Int }"]),
+        // interface implementations
+        ok(vec!["type Query { n: Node }", "interface Node { id: ID!; f(a: Int): [Int] }", "type P implements Node { id: ID!; f(a: Int): [Int!]; extra: Int }"]),
+        bad(vec!["type Query { n: Node }", "interface Node { id: ID! }", "type P implements Node { x: Int }"]),                       // missing field
+        bad(vec!["type Query { n: Node }", "interface Node { id: ID! }", "type P implements Node { id: ID }"]),                      // nullable where non-null required
+        bad(vec!["type Query { n: Node }", "interface Node { id: ID! }", "type P implements Node { id: Int! }"]),                    // different named type
+        bad(vec!["type Query { n: Node }", "interface Node { f(a: Int): Int }", "type P implements Node { f(a: String): Int }"]),   // argument type differs
+        ok(vec!["type Query { n: Node }", "interface Node { f: Int }", "type P implements Node { f(extra: Int): Int }"]),
+        bad(vec!["type Query { n: Int }", "type P implements Nope { x: Int }"]),                                                     // unknown interface
+        bad(vec!["type Query { n: Int }", "type P implements Q2 { x: Int }", "type Q2 { x: Int }"]),                                 // implements a non-interface
+        bad(vec!["type Query { n: Node }", "interface Node { f(a: Int!): Int }", "type P implements Node { f: Int }"]),              // missing required argument
+        ok(vec!["type Query { n: Node }", "interface Node { l: [[Int]] }", "type P implements Node { l: [[Int!]!]! }"]),
+        bad(vec!["type Query { n: Node }", "interface Node { l: [Int!] }", "type P implements Node { l: [Int] }"]),
+        bad(vec!["type Query { n: Node }", "interface Node { l: [Int] }", "type P implements Node { l: Int }"]),
+    ];
+    if !has("C33-implementation-arguments-not-checked") {
+        v.push(bad(vec!["type Query { n: Node }", "interface Node { f(a: Int): Int }", "type P implements Node { f: Int }"]));              // every interface argument must be present
+        v.push(bad(vec!["type Query { n: Node }", "interface Node { f: Int }", "type P implements Node { f(extra: Int!): Int }"]));         // additional arguments must not be required
+        v.push(bad(vec!["type Query { n: Node }", "interface Node { f(a: Int): Int }", "type P implements Node { f(a: Int!): Int }"]));     // argument types are invariant
+    }
+    v.into_iter()
+}
